@@ -148,6 +148,16 @@ class SlotRef:
         return mark_safe(self._slot.nodelist.render(self._context_snapshot))
 
 
+class _InertSlotRef:
+    """Stands in for a SlotRef while a component body is searched for `{% fill %}` tags."""
+
+    def __init__(self, slot_ref: SlotRef):
+        self._slot_ref = slot_ref
+
+    def __str__(self) -> str:
+        return "<slot default content>" if len(self._slot_ref._slot.nodelist) else ""
+
+
 class SlotIsFilled(dict):
     """
     Dictionary that returns `True` if the slot is filled (key is found), `False` otherwise.
@@ -865,8 +875,18 @@ def _extract_fill_content(
     # When, during rendering of this tree, we encounter a {% fill %} node, instead of rendering content,
     # it will add itself into captured_fills, because `FILL_GEN_CONTEXT_KEY` is defined.
     captured_fills: List[FillWithData] = []
-    with context.update({FILL_GEN_CONTEXT_KEY: captured_fills}):
-        content = mark_safe(nodes.render(context).strip())
+    # NOTE: `{{ default }}` (the `default=".."` alias of an enclosing fill) renders the slot's default content with its
+    #       own Context, which does not know that we are only looking for fills. Components inside it would be prepared
+    #       for a render that never happens (and never cleaned up). So while we look for fills, such variables only
+    #       tell whether there is any content.
+    inert_slot_refs = {
+        key: _InertSlotRef(val) for layer in context.dicts for key, val in layer.items() if isinstance(val, SlotRef)
+    }
+    # NOTE: Separate layer BELOW the layer with `FILL_GEN_CONTEXT_KEY` - everything from that layer up
+    #       is captured by the fills as the variables defined between the component tag and the fill.
+    with context.update(inert_slot_refs):
+        with context.update({FILL_GEN_CONTEXT_KEY: captured_fills}):
+            content = mark_safe(nodes.render(context).strip())
 
     # If we did not encounter any fills (not accounting for those nested in other
     # {% componenet %} tags), then we treat the content as default slot.
